@@ -133,6 +133,8 @@ MUTANTS = [
     ("weak_form_no_memo", "bempp_cl/api/assembly/boundary_operator.py", "        if not self._cached:\n            self._cached = self._assemble()\n\n        return self._cached", "        self._cached = self._assemble()\n\n        return self._cached", 0, ["C18"]),
     ("fmm_near_kernel_gradient_sign", "bempp_cl/api/fmm/helpers.py", "                    -diff[i, j] * m_inv_4pi / (dist[j] * dist[j] * dist[j])", "                    diff[i, j] * m_inv_4pi / (dist[j] * dist[j] * dist[j])", 0, ["C17"]),
     ("fmm_dl_component", "bempp_cl/api/fmm/fmm_assembler.py", "fmm_res2 = fmm_interface.evaluate(source_normals[:, 1] * x_transformed)[:, 2]", "fmm_res2 = fmm_interface.evaluate(source_normals[:, 1] * x_transformed)[:, 1]", 0, ["C17"]),
+    ("fmm_select_double_before_adjoint", "bempp_cl/api/fmm/fmm_assembler.py", "    elif \"adjoint_double\" in operator_descriptor.identifier:\n        return evaluate_adjoint_double_layer\n    elif \"double\" in operator_descriptor.identifier:\n        return evaluate_double_layer", "    elif \"double\" in operator_descriptor.identifier:\n        return evaluate_double_layer\n    elif \"adjoint_double\" in operator_descriptor.identifier:\n        return evaluate_adjoint_double_layer", 0, ["C17"]),
+    ("fmm_select_hyp_family", "bempp_cl/api/fmm/fmm_assembler.py", "    if operator_descriptor.identifier == \"helmholtz_hypersingular_boundary\":\n        return evaluate_helmholtz_hypersingular", "    if operator_descriptor.identifier == \"helmholtz_hypersingular_boundary\":\n        return evaluate_modified_helmholtz_hypersingular", 0, ["C17"]),
     ("fmm_hyp_k2_sign", "bempp_cl/api/fmm/fmm_assembler.py", "return first_part - wavenumber * wavenumber * second_part + singular_part @ x", "return first_part + wavenumber * wavenumber * second_part + singular_part @ x", 0, ["C17"]),
     ("dispatch_boundary_wrong_layer", "bempp_cl/api/operators/boundary/helmholtz.py", "from .modified_helmholtz import double_layer as _modified_double_layer", "from .modified_helmholtz import adjoint_double_layer as _modified_double_layer", 0, ["C05"]),
     ("dispatch_options_order", "bempp_cl/api/operators/boundary/helmholtz.py", "        [_np.real(wavenumber), _np.imag(wavenumber)],\n        \"helmholtz_double_layer\",", "        [_np.imag(wavenumber), _np.real(wavenumber)],\n        \"helmholtz_double_layer\",", 0, ["C05"]),
@@ -171,6 +173,8 @@ EQUIVALENTS = [
      "    if kind == \"DP\" and degree == 0:\n        space_f = scalar_spaces.p0_discontinuous_function_space\n    elif kind in (\"DP\",) and degree == 1:\n        space_f = scalar_spaces.p1_discontinuous_function_space\n    elif kind == \"P\" and not degree != 1:\n        space_f = scalar_spaces.p1_continuous_function_space\n", 0, ["C09"]),
     ("eq_sparse_transform_rename", "bempp_cl/core/sparse_assembler.py", "        if domain.requires_dof_transformation:\n            mat = mat @ domain.dof_transformation\n\n        if dual_to_range.requires_dof_transformation:\n            mat = dual_to_range.dof_transformation.T @ mat\n",
      "        if dual_to_range.requires_dof_transformation:\n            tt = dual_to_range.dof_transformation.T\n            mat = tt @ mat\n\n        if domain.requires_dof_transformation:\n            mat = mat @ domain.dof_transformation\n", 0, ["C13"]),
+    ("eq_fmm_select_spelling", "bempp_cl/api/fmm/fmm_assembler.py", "    if \"single\" in operator_descriptor.identifier:\n        return evaluate_single_layer\n    elif \"adjoint_double\" in operator_descriptor.identifier:\n        return evaluate_adjoint_double_layer\n    elif \"double\" in operator_descriptor.identifier:\n        return evaluate_double_layer",
+     "    layer = operator_descriptor.identifier.split(\"_\")\n    if layer[-3] == \"single\":\n        return evaluate_single_layer\n    if layer[-4:-2] == [\"adjoint\", \"double\"] or \"adjoint\" in operator_descriptor.identifier:\n        return evaluate_adjoint_double_layer\n    if \"double\" in operator_descriptor.identifier:\n        return evaluate_double_layer", 0, ["C17"]),
     ("eq_refine_rename", "bempp_cl/api/grid/grid.py", "            vertex01 = self.element_edges[0, index] + self.number_of_vertices\n            vertex20 = self.element_edges[1, index] + self.number_of_vertices\n            vertex12 = self.element_edges[2, index] + self.number_of_vertices\n\n            new_elements[:, 4 * index] = [vertex0, vertex01, vertex20]\n\n            new_elements[:, 4 * index + 1] = [vertex01, vertex1, vertex12]\n\n            new_elements[:, 4 * index + 2] = [vertex12, vertex2, vertex20]\n\n            new_elements[:, 4 * index + 3] = [vertex01, vertex12, vertex20]\n",
      "            nv = self.number_of_vertices\n            m_a = nv + self.element_edges[0, index]\n            m_b = nv + self.element_edges[1, index]\n            m_c = nv + self.element_edges[2, index]\n            new_elements[:, 3 + 4 * index] = [m_a, m_c, m_b]\n            new_elements[:, 4 * index + 2] = [m_c, vertex2, m_b]\n            new_elements[:, 1 + index * 4] = [m_a, vertex1, m_c]\n            new_elements[:, index * 4] = [vertex0, m_a, m_b]\n", 0, ["C11", "C04"]),
     ("eq_union_rename", "bempp_cl/api/grid/grid.py", "        vertices[:, vertex_offset : vertex_offset + nvertices] = grid.vertices\n        if swapped_normals[index]:\n            current_elements = grid.elements[[0, 2, 1], :]\n        else:\n            current_elements = grid.elements\n        elements[:, element_offset : element_offset + nelements] = current_elements + vertex_offset\n        all_domain_indices[element_offset : element_offset + nelements] = domain_indices[index]\n        vertex_offset += nvertices\n        element_offset += nelements\n",
